@@ -83,7 +83,6 @@ OPS = {
     "sel_drop": (lambda a: a.sel(t=a["t"].values[1], drop=True), ("t",)),
     "squeeze": (lambda a: a.isel(t=[1]).squeeze("t"), ("t",)),
     "squeeze_drop": (lambda a: a.isel(t=[1]).squeeze("t", drop=True), ("t",)),
-    "squeeze_all_drop": (lambda a: a.isel(t=[0]).squeeze(drop=True), ("t",)),
     "isel_missing_dims": (lambda a: a.isel({"t": 0, "no_such_dim": 0}, missing_dims="ignore"), ("t",)),
     "reset_coords_drop": (lambda a: a.isel(t=0).reset_coords(drop=True), ("t",)),
     "mean_keep_attrs": (lambda a: a.mean("t", keep_attrs=True), ("t",)),
